@@ -18,6 +18,9 @@ Scheduling (resolves every race; the Gallina model `Equalizer/EqModel.v` follows
     late            the worker's `put` of the result is withheld and lands at the moment the parent kills the worker
     slow:<d>        the worker's `put` lands d seconds after the worker took the task
     drops           the worker's `put` is lost in transit (what `mp.Queue` does with an unpicklable result)
+* a worker that is killed while idle dies inside `get(True, 0.05)` on the task queue, i.e. holding that queue's read
+  lock (`multiprocessing.Queue.get` polls under `_rlock`): the queue is poisoned, no later worker can take a task
+  from it (observed on real processes)
     dies_before     the worker dies before taking this task from the queue (once; the task stays queued)
 """
 import multiprocessing as _real_mp
@@ -147,6 +150,7 @@ class FakeQueue(object):
     def __init__(self, sim):
         self.sim = sim
         self.items = []
+        self.poisoned = False     # read lock left held by a worker killed while polling
 
     # -- common
     def close(self):
@@ -193,7 +197,8 @@ class FakeQueue(object):
         sim = self.sim
         w = sim.worker
         if w is not None:                   # worker polls for a task (real timeout 50 ms: no modelled time)
-            if self.items:
+            w.waiting_on = self
+            if self.items and not self.poisoned:
                 it = self.items[0]
                 x = it.x
                 rid = rid_of(x)
@@ -201,6 +206,7 @@ class FakeQueue(object):
                     it.fired = True
                     raise WorkerDiesBefore()
                 self.items.pop(0)
+                w.waiting_on = None
                 w.served.append(rid)
                 w.took_at = sim.clock
                 return x
@@ -248,6 +254,7 @@ class FakeProcess(object):
         self.ready = 0
         self.took_at = 0
         self.deaf = False
+        self.waiting_on = None    # queue this worker is polling while idle
         self.playing = None
         self.yield_requested = False
         self.saw_flag = False
@@ -317,6 +324,8 @@ class FakeProcess(object):
             return
         if sig not in (signal.SIGTERM, signal.SIGKILL, signal.SIGINT):
             return
+        if self.state == 'idle' and self.waiting_on is not None:
+            self.waiting_on.poisoned = True                      # dies holding the read lock of the task queue
         if self.state == 'hung' and self.held_q is not None:     # the late answer lands just before the signal
             self.held_q.items.append(_Item(self.held))
             self.held = self.held_q = None
